@@ -68,7 +68,8 @@ def _check_main(run, P):
     from . import c06
     from .c01 import _alias
     for src in ("C06.splice", "C06.pop", "C06.keep", "C06.neg", "C06.same", "C06.merge",
-                "C06.const", "C06.post", "C06.pre", "C06.identity", "C06.flat"):
+                "C06.const", "C06.post", "C06.pre", "C06.identity", "C06.flat", "C06.ends",
+                "C06.handlers", "C06.lost"):
         run.rule_docs[src] = ""
         run.minimum[src] = 0
     n0 = len(run.obs)
@@ -77,7 +78,8 @@ def _check_main(run, P):
     c06._keep(run, P)
     c06._ifthenelse(run, P)
     c06._merge(run, P)
-    c06._post_pre(run, P)
+    c06._handlers(run, P)
+    c06._lost(run, P)
     c06._identity(run, P)
     c06._flat(run, P)
     for o in run.obs[n0:]:
